@@ -203,7 +203,7 @@ class Check(PropertyCheck):
     rule = ("schedules over stream data / FIN / reset on bidi+uni, client- and server-initiated streams (<= 6 streams), "
             "connection close from either side, hook completions for any pending stream (keep/edit), datagrams; ~10% wild "
             "ids. distinct = distinct effective input sequence; non-trivial = at least one stream command produced.")
-    budget = {"quick": 4000, "thorough": 150000}
+    budget = {"quick": 8000, "thorough": 150000}
     time_budget = {"quick": 30, "thorough": 540}
     fingerprints = ["mitmproxy.proxy.layers.quic._raw_layers:RawQuicLayer", "mitmproxy.proxy.layers.quic._raw_layers:QuicStreamLayer",
                     "mitmproxy.proxy.layers.quic._events:QuicStreamDataReceived", "mitmproxy.proxy.layers.quic._events:QuicStreamReset",
@@ -212,9 +212,10 @@ class Check(PropertyCheck):
                     "mitmproxy.proxy.layers.quic._commands:StopSendingQuicStream",
                     "mitmproxy.proxy.layers.tcp:TCPLayer", "mitmproxy.proxy.layer:Layer.handle_event"]
     trusted_base = ["harness/common/world.py as the stand-in for proxy/server.py", "aioquic stream_is_client_initiated / stream_is_unidirectional (id & 1, id & 2)"]
-    parallel = True
+    parallel = False              # set per tier in setup(): process pool only for the thorough tier
 
     def setup(self, tier):
+        self.parallel = tier == "thorough"
         global _OPTS
         if _OPTS is None: _OPTS = make_context("udp").options
 
@@ -295,6 +296,10 @@ class Check(PropertyCheck):
                 if client_init(c) != client_init(s): fails.append(f"pair ({c},{s}) differs in initiator bit")
             # "data, end-of-stream and reset signals reach only the paired stream"
             pm = {c: s for c, s in pairs}
+            if any(o.startswith("H:?") for o in st["out"]) or (parts[0] == "hook" and parts[1] == "?"):
+                # a hook of a stream layer that client_stream_ids no longer knows: its id was handed out twice
+                fails.append(f"{st['in']}: hook of a stream layer that is not registered under its client id (ids not unique)")
+                continue
             if parts[0] in ("sd", "sr", "hook") and parts[1 if parts[0] == "hook" else 2] != "dg":
                 if parts[0] == "hook":
                     src_c = int(parts[1])
